@@ -240,6 +240,22 @@ class Interp:
         for a in fi.node.args.kwonlyargs:
             dk = self.declared_param(fi, a.arg)
             out[a.arg] = TOP if fi.rewrapped else (dk if dk is not None else self.annotation_kind(fi, a))
+        # a parameter that DEFAULTS to a module / class / function of the program (`_nx=nx`, `_factory=Hypergraph`, `_search=_bfs`:
+        # a testability seam) stands for that object when nothing else is known about it
+        if not fi.rewrapped:
+            for pname, d in fi.defaults().items():
+                if pname in out and isinstance(out[pname], _Top) and isinstance(d, (ast.Name, ast.Attribute)):
+                    k = self.global_name(fi.module, d.id) if isinstance(d, ast.Name) else TOP
+                    if isinstance(d, ast.Attribute):
+                        r = self.prog.resolve_attr_chain(fi.module, d)
+                        if isinstance(r, FunctionInfo):
+                            k = Fn(r.qualname)
+                        elif isinstance(r, ClassInfo):
+                            k = Fn("class:" + r.qualname)
+                        elif isinstance(r, tuple):
+                            k = Fn(("module:" if r[0] == "module" else "extern:") + r[1])
+                    if isinstance(k, Fn):
+                        out[pname] = k
         if fi.node.args.vararg:
             out[fi.node.args.vararg.arg] = TOP
         if fi.node.args.kwarg:
